@@ -35,6 +35,7 @@ type c34Case struct {
 	Decl   string // reader: declared size "exact" | "chunked" (-1) | "short" (stream yields 5 bytes less) | "long" (stream yields twice as much)
 	Fault  string // reader: "none" | "err" | "panic" raised by Read ...
 	At     int    // ... when it is asked for chunk At (At == len(Chunks): instead of io.EOF)
+	Tail   string `json:",omitempty"` // "": the end is a separate (0, io.EOF) read; "eof": the last data comes together with io.EOF; "err": together with a non-EOF error
 	Closer string // "none" | "closer" | "closer+cwe" (also implements CloseWithError; responses only)
 	Gzip   bool   // response written with WriteGzip (stream wrapped in the compressing stream)
 	WErr   int    // the connection fails once this many bytes were accepted (0 = never)
@@ -58,6 +59,8 @@ type c34Stream struct {
 	fault           string
 	at              int
 	fired           bool
+	tail            string
+	ended           bool
 	idx, off        int // current chunk and offset inside it
 	base            int // pattern offset of the current chunk
 	produced        []byte
@@ -67,7 +70,7 @@ type c34Stream struct {
 }
 
 func c34NewStream(c *c34Case) *c34Stream {
-	return &c34Stream{chunks: c.Chunks, fault: c.Fault, at: c.At}
+	return &c34Stream{chunks: c.Chunks, fault: c.Fault, at: c.At, tail: c.Tail}
 }
 
 func (s *c34Stream) Read(p []byte) (int, error) {
@@ -86,7 +89,7 @@ func (s *c34Stream) Read(p []byte) (int, error) {
 		}
 		return 0, errC34Read
 	}
-	if s.idx >= len(s.chunks) {
+	if s.idx >= len(s.chunks) || s.ended {
 		return 0, io.EOF
 	}
 	sz := s.chunks[s.idx]
@@ -99,6 +102,14 @@ func (s *c34Stream) Read(p []byte) (int, error) {
 	s.off += n
 	if s.off == sz {
 		s.idx, s.off, s.base = s.idx+1, 0, s.base+sz
+		if s.idx == len(s.chunks) && s.tail != "" {
+			// the final piece of data is handed out together with the end condition
+			s.ended = true
+			if s.tail == "err" {
+				return n, errC34Read
+			}
+			return n, io.EOF
+		}
 	}
 	return n, nil
 }
@@ -341,7 +352,7 @@ func c34ExecInner(c *c34Case, o *c34Out) {
 			})
 			if p != nil {
 				o.panicked = true
-			} else if c.Fault == "none" && !bytes.Equal(got, st.producedBytes()) {
+			} else if c.Fault == "none" && c.Tail != "err" && !bytes.Equal(got, st.producedBytes()) {
 				o.add("body-getter-differs", "Body() returned %d bytes, the stream produced %d", len(got), len(st.producedBytes()))
 			}
 		case "bodywriteto":
@@ -445,8 +456,8 @@ func c34Write(c *c34Case, m *c34Msg, st *c34Stream, o *c34Out) {
 		o.wroteOK = true
 		// A failing Read that is nevertheless reported as success is outside the statement as long as the peer gets
 		// exactly what the stream handed out; it is counted (evidence) but not judged.
-		o.faultAsSuccess = c.Fault != "none"
-		if c.Fault == "none" && len(produced) != total {
+		o.faultAsSuccess = c.Fault != "none" || c.Tail == "err"
+		if c.Fault == "none" && c.Tail != "err" && len(produced) != total {
 			o.add("stream-not-read-to-eof", "Write succeeded but the stream handed out %d of %d bytes", len(produced), total)
 		}
 		w, err := c03Split(out, c.Side == "resp", false)
@@ -474,7 +485,12 @@ func c34Write(c *c34Case, m *c34Msg, st *c34Stream, o *c34Out) {
 				return
 			}
 		}
-		if !bytes.Equal(body, produced) {
+		if c.Tail == "err" {
+			// data that came together with a read error may or may not have been sent, but never twice or garbled
+			if !bytes.HasPrefix(produced, body) {
+				o.add("peer-bytes-not-a-prefix-of-produced", "peer decodes %d bytes which are not a prefix of the %d produced ones (first difference at %d)", len(body), len(produced), c34Diff(body, produced))
+			}
+		} else if !bytes.Equal(body, produced) {
 			o.add("peer-bytes-differ", "peer decodes %d bytes, the stream produced %d (first difference at %d)", len(body), len(produced), c34Diff(body, produced))
 		}
 		if w.End != len(out) {
@@ -486,7 +502,7 @@ func c34Write(c *c34Case, m *c34Msg, st *c34Stream, o *c34Out) {
 		if decl < 0 && !w.Chunked {
 			o.add("unknown-size-not-chunked", "stream of unknown size is not sent chunked")
 		}
-		if c.Fault == "none" {
+		if c.Fault == "none" && c.Tail != "err" {
 			c34ReadBack(c, out, w.Body, o)
 		}
 		return
@@ -725,6 +741,9 @@ func c34Sig(sym string, c *c34Case) string {
 		if c.Fault != "none" {
 			parts = append(parts, "read-"+c.Fault)
 		}
+		if c.Tail != "" {
+			parts = append(parts, "data-with-"+c.Tail)
+		}
 		if c.Closer == "closer+cwe" {
 			parts = append(parts, "cwe")
 		}
@@ -788,6 +807,7 @@ func c34Shrink(c c34Case, sym string) c34Case {
 		}
 		for _, f := range []func(*c34Case){
 			func(x *c34Case) { x.Fault, x.At = "none", 0 },
+			func(x *c34Case) { x.Tail = "" },
 			func(x *c34Case) { x.WErr = 0 },
 			func(x *c34Case) { x.WBuf = 4096 },
 			func(x *c34Case) { x.Gzip = false },
@@ -876,7 +896,7 @@ func TestVerif_C34(t *testing.T) {
 	sizes := []int{0, 1, 4095, 4096, 4097}
 	maxChunks := vrt.Pick(r, 3, 4)
 	r.Rule(fmt.Sprintf("reader streams: every sequence of at most %d Read results with sizes from %v (0 = a (0,nil) read) x declared size {exact, -1, 5 bytes more than produced, half of what is produced} "+
-		"x Read fault {none, error, panic} at every chunk position (incl. instead of EOF) x {plain reader, io.Closer, io.Closer+CloseWithError (responses)} x {Request, Response} "+
+		"x Read fault {none, error, panic} at every chunk position (incl. instead of EOF) and, fault-free, the last data returned together with io.EOF or together with a non-EOF error x {plain reader, io.Closer, io.Closer+CloseWithError (responses)} x {Request, Response} "+
 		"x life-cycle path %v; write paths additionally x bufio size {4096, 64 in the thorough tier} x an injected connection write error at every offset of "+
 		"{1, header end -1/0/+1, middle of the body, 4096-multiples +0/+1, last byte} (with Read faults: fault-free only in the quick tier) x Response.WriteGzip wrapping (faults none/error); "+
 		"StreamWriter bodies: every sequence of at most %d pieces (sizes as above, each followed by Flush) x {Request, Response} x {write,reset / write,release / reset / release} x the same write-error offsets. "+
@@ -929,6 +949,9 @@ func TestVerif_C34(t *testing.T) {
 			if o.wroteOK {
 				local["writes_decoded_from_wire"]++
 				nt = true
+			}
+			if c.Tail != "" {
+				local["cases_with_last_data_returned_with_"+c.Tail]++
 			}
 			if c.Kind == "reader" && c.Closer != "none" {
 				local["closer_cases"]++
@@ -987,14 +1010,18 @@ func TestVerif_C34(t *testing.T) {
 					type flt struct {
 						kind string
 						at   int
+						tail string
 					}
-					faults := []flt{{"none", 0}}
+					faults := []flt{{"none", 0, ""}}
+					if len(chunks) > 0 && chunks[len(chunks)-1] > 0 {
+						faults = append(faults, flt{"none", 0, "eof"}, flt{"none", 0, "err"})
+					}
 					for at := 0; at <= len(chunks); at++ {
-						faults = append(faults, flt{"err", at}, flt{"panic", at})
+						faults = append(faults, flt{"err", at, ""}, flt{"panic", at, ""})
 					}
 					for _, f := range faults {
 						for _, path := range c34Paths {
-							base := c34Case{Kind: "reader", Side: side, Chunks: chunks, Decl: decl, Fault: f.kind, At: f.at, Closer: closer, WBuf: 4096, Path: path}
+							base := c34Case{Kind: "reader", Side: side, Chunks: chunks, Decl: decl, Fault: f.kind, At: f.at, Tail: f.tail, Closer: closer, WBuf: 4096, Path: path}
 							if !strings.HasPrefix(path, "write") {
 								run(base)
 								continue
@@ -1002,7 +1029,7 @@ func TestVerif_C34(t *testing.T) {
 							for _, wb := range wbufs {
 								base.WBuf = wb
 								o := run(base)
-								if f.kind != "none" && !r.Thorough() {
+								if (f.kind != "none" || f.tail == "err") && !r.Thorough() {
 									continue
 								}
 								for _, off := range offsets(o) {
@@ -1020,6 +1047,9 @@ func TestVerif_C34(t *testing.T) {
 				for _, decl := range []string{"exact", "chunked"} {
 					for _, closer := range []string{"closer", "closer+cwe"} {
 						ats := []int{-1}
+						if len(chunks) > 0 && chunks[len(chunks)-1] > 0 {
+							ats = append(ats, -2) // fault-free, last data together with io.EOF
+						}
 						for at := 0; at <= len(chunks); at++ {
 							ats = append(ats, at)
 						}
@@ -1028,6 +1058,9 @@ func TestVerif_C34(t *testing.T) {
 								base := c34Case{Kind: "reader", Side: side, Chunks: chunks, Decl: decl, Fault: "none", Closer: closer, WBuf: 4096, Path: path, Gzip: true}
 								if at >= 0 {
 									base.Fault, base.At = "err", at
+								}
+								if at == -2 {
+									base.Tail = "eof"
 								}
 								o := run(base)
 								if at >= 0 && !r.Thorough() {
